@@ -195,12 +195,6 @@ Proof.
   destruct (s_hash (eR e) (q ++ key_salt_of (eO e) ++ eU e) q (eU e)) as [k|]; reflexivity.
 Qed.
 
-(* a password SASLprep leaves alone and that needs no truncation *)
-Definition prepared (pw : bytes) : Prop := saslprep pw = Some pw /\ (length pw <= 127)%nat.
-
-Lemma prepared_prepare pw : prepared pw -> prepare_password saslprep pw = Some pw.
-Proof. intros [Hs Hl]. unfold prepare_password. rewrite Hs. cbn. rewrite firstn_all2 by lia. reflexivity. Qed.
-
 Definition spec_calc (r : N) (upw opw vsu ksu vso kso fk : bytes) : option (bytes * bytes * bytes * bytes) :=
   match alg8 sha256 sha384 sha512 aes_cbc_enc saslprep r upw vsu ksu fk with
   | None => None
@@ -229,23 +223,30 @@ Proof.
 Qed.
 
 Lemma calc_eq r upw opw vsu ksu vso kso fk :
-  prepared upw -> prepared opw ->
+  prep upw = saslprep upw -> prep opw = saslprep opw ->
   length vsu = 8%nat -> length ksu = 8%nat -> length vso = 8%nat -> length kso = 8%nat ->
-  c_calc_ou_aes sha256 sha384 sha512 aes_cbc_enc r upw opw (vsu ++ ksu) (vso ++ kso) fk
+  c_calc_ou_aes sha256 sha384 sha512 aes_cbc_enc prep r upw opw (vsu ++ ksu) (vso ++ kso) fk
   = spec_calc r upw opw vsu ksu vso kso fk.
 Proof.
-  intros Hu Ho H1 H2 H3 H4. unfold c_calc_ou_aes, spec_calc, alg8, alg9.
-  rewrite (prepared_prepare _ Hu), (prepared_prepare _ Ho).
+  intros Hu Ho H1 H2 H3 H4.
+  unfold c_calc_ou_aes, c_prepared_password, spec_calc, alg8, alg9, prepare_password.
+  rewrite Hu, Ho.
   destruct (salt_split vsu ksu H1 H2) as [-> ->]. destruct (salt_split vso kso H3 H4) as [-> ->].
-  rewrite hash_eq. destruct (s_hash r (upw ++ vsu) upw []) as [hu|]; [|reflexivity].
-  cbn beta iota. rewrite <- !app_assoc. rewrite hash_eq.
+  destruct (saslprep upw) as [pu|]; cbn [option_map]; [|reflexivity].
+  rewrite trunc127_eq. set (qu := firstn 127 pu).
+  rewrite hash_eq. destruct (s_hash r (qu ++ vsu) qu []) as [hu|]; [|reflexivity].
+  cbn beta iota.
+  destruct (saslprep opw) as [po|]; cbn [option_map].
+  2:{ destruct (s_hash r (qu ++ ksu) qu []) as [ku|]; reflexivity. }
+  rewrite trunc127_eq. set (qo := firstn 127 po).
+  rewrite <- !app_assoc. rewrite hash_eq.
   (* the code computes the hash of O before the key of UE: case analysis in the order of the code *)
-  destruct (s_hash r (opw ++ vso ++ hu ++ vsu ++ ksu) opw (hu ++ vsu ++ ksu)) as [ho|] eqn:Eo.
-  - rewrite hash_eq. destruct (s_hash r (upw ++ ksu) upw []) as [ku|] eqn:Ek; [|reflexivity].
+  destruct (s_hash r (qo ++ vso ++ hu ++ vsu ++ ksu) qo (hu ++ vsu ++ ksu)) as [ho|] eqn:Eo.
+  - rewrite hash_eq. destruct (s_hash r (qu ++ ksu) qu []) as [ku|] eqn:Ek; [|reflexivity].
     cbn beta iota. rewrite <- ?app_assoc. rewrite hash_eq, ?Eo.
-    destruct (s_hash r (opw ++ kso ++ hu ++ vsu ++ ksu) opw (hu ++ vsu ++ ksu)) as [ko|] eqn:Eko;
+    destruct (s_hash r (qo ++ kso ++ hu ++ vsu ++ ksu) qo (hu ++ vsu ++ ksu)) as [ko|] eqn:Eko;
       cbn beta iota; rewrite ?Eo, ?Eko; reflexivity.
-  - destruct (s_hash r (upw ++ ksu) upw []) as [ku|] eqn:Ek; [|reflexivity].
+  - destruct (s_hash r (qu ++ ksu) qu []) as [ku|] eqn:Ek; [|reflexivity].
     cbn beta iota. rewrite ?Eo. reflexivity.
 Qed.
 
@@ -308,16 +309,30 @@ Proof.
   destruct Hb as [a [<- _]]. apply N.mod_lt. lia.
 Qed.
 
-Definition pw128 : bytes := repeat 120 128.
 Definition salt_a : bytes := [1; 2; 3; 4; 5; 6; 7; 8].
 Definition salt_b : bytes := [9; 10; 11; 12; 13; 14; 15; 16].
 
-(* a 128-byte user password: SASLprep leaves it alone, the specification truncates it to 127 bytes, the code does not *)
-Lemma calc_truncation_witness :
+(* the writer: a password SASLprep accepts unchanged, a preparation that rejects it (as the PRECIS identifier profile
+   behind processInput rejects the space): nothing is written where Algorithm 8 defines U and UE *)
+Lemma calc_prep_witness :
   let saslprep := fun x : bytes => Some x in
-  c_calc_ou_aes (toy_hash 31) (toy_hash 47) (toy_hash 63) toy_cbc 5 pw128 [111] (salt_a ++ salt_b) (salt_a ++ salt_b) (repeat 7 32)
-  <> spec_calc (toy_hash 31) (toy_hash 47) (toy_hash 63) toy_cbc saslprep 5 pw128 [111] salt_a salt_b salt_a salt_b (repeat 7 32).
-Proof. vm_compute. intros H. discriminate H. Qed.
+  let prep := fun x : bytes => if existsb (N.eqb 32) x then None else Some x in
+  let pw := [109; 121; 32; 112; 97; 115; 115] in
+  c_calc_ou_aes (toy_hash 31) (toy_hash 47) (toy_hash 63) toy_cbc prep 5 pw [111] (salt_a ++ salt_b) (salt_a ++ salt_b) (repeat 7 32) = None /\
+  spec_calc (toy_hash 31) (toy_hash 47) (toy_hash 63) toy_cbc saslprep 5 pw [111] salt_a salt_b salt_a salt_b (repeat 7 32) <> None.
+Proof. vm_compute. split; [reflexivity|discriminate]. Qed.
+
+(* positive: a 130-byte password and one the preparation rewrites are written as Algorithm 8 prescribes and then accepted *)
+Lemma calc_long_witness :
+  let prep := fun x : bytes => Some (map (fun b => if b =? 170 then 97 else b) x) in
+  forall pw, pw = repeat 120 130 \/ pw = [170; 98] ->
+  match c_calc_ou_aes (toy_hash 31) (toy_hash 47) (toy_hash 63) toy_cbc prep 5 pw [111] (salt_a ++ salt_b) (salt_a ++ salt_b) (repeat 7 32) with
+  | Some (u, o, ue, oe) =>
+    fst (c_validate_user_aes (toy_hash 31) (toy_hash 47) (toy_hash 63) toy_cbc toy_cbc prep pw
+           (mkEnc o u oe ue [] 256 0%Z 5 true [])) = VOk
+  | None => False
+  end.
+Proof. intros prep pw [-> | ->]; vm_compute; reflexivity. Qed.
 
 (* the reader: a password SASLprep accepts unchanged, a preparation that rejects it *)
 Definition toy_enc_user (pw : bytes) : enc :=
